@@ -69,6 +69,22 @@ def generate(tier, seed):
         for o in al[:20]:
             steps = list(obs) + [o] + obs
             cases.append(case("eng", sp, adapter_S([["p"] + r for r in p_rules(dom)[:2]]), "-", steps))
+    # a model WITHOUT a policy definition (request, roles, effect, matcher only): the constructor and load_policy accept it,
+    # save_policy through the string / file adapter fails ("missing policy definition") - the failed save must leave what the
+    # adapter holds exactly as it was (read back with ?rv and by a reload), however often it is repeated
+    dist["roles_only_save"] = 0
+    m = Call("g", V("r", "sub"), Lit("admin"))
+    sp0 = "r=sub,obj,act;g=2;e=AO;m={%s}" % m
+    gl = [["alice", "admin"], ["bob", "ops"], ["ops", "admin"]]
+    obs0 = ["?ga:g", "?rv", "?rf:alice:-", "?uf:admin:-", "?hl:bob:admin:-"]
+    for k in (0, 1, 2, 3):
+        for ad in (adapter_S([["g"] + r for r in gl[:k]]), adapter_F([["g"] + r for r in gl[:k]]), adapter_M([["g", "g"] + r for r in gl[:k]])):
+            for pre in ([], ["ES:0", A("g", "g", ["carl", "admin"])], ["ES:0", R("g", "g", gl[0])], ["CL"]):
+                steps = list(obs0)
+                for o in pre + ["SV", "SV", "LD"]:
+                    steps += [o] + obs0
+                cases.append(case("eng", sp0, ad, "-", steps))
+                dist["roles_only_save"] += 1
     # file save with a write failure after k bytes (file-size limit in a child process)
     old = [["p", "alice", "data1", "read"], ["p", "bob", "data2", "write"], ["g", "alice", "admin"]]
     news = [[["p", "carol", "data3", "read"], ["p", "x,y", "data 4", "write"], ["g", "carol", "admin"], ["g", "dave", "admin"]],
